@@ -9,6 +9,8 @@ use parry3d_f64::na::{Translation3, UnitQuaternion, Vector6};
 type T3Storage = Vector6<f64>;
 
 pub use self::points_to_mesh::points_to_mesh;
+#[cfg(feature = "verif")]
+pub use self::points_to_mesh::verif_observe as verif_observe_points_to_mesh;
 pub use self::rotations::RotationMatrices;
 
 #[derive(Clone, Copy, Debug)]
